@@ -9,6 +9,7 @@ Record obs := Obs {
   ob_full : bool;          (* false: the state part (tables, store, pools, PFDs) is omitted for this event *)
   ob_crash : bool;
   ob_reply : list N;
+  ob_rseq : N;            (* sequence number of the implementation's reply, 0 when there is none *)
   ob_ncmds : N;
   ob_tables : list (N * list N * list N);          (* module code, key, value *)
   ob_store : list (N * N * N * list (list N) * list (list N) * list (list N));   (* conn, lseid, rseid, pdrs, fars, qers *)
@@ -18,7 +19,7 @@ Record obs := Obs {
   ob_pfds : list (N * list (N * list N)) }.          (* conn -> app id -> flow text ids *)
 
 Inductive event :=
-| EvMsg (conn : N) (connected : bool) (m : msg) (draws : list N) (o : obs)
+| EvMsg (conn : N) (connected : bool) (seq : N) (m : msg) (draws : list N) (o : obs)
 | EvTeardown (conn : N) (o : obs)
 | EvRestart (o : obs).
 
@@ -125,10 +126,11 @@ Definition check (w : world) (res : out) (o : obs) : bool :=
 Definition step (k : case) (w : world) (e : event) : option (world * out) * obs :=
   let burst := burst_of (k_burst k) in
   match e with
-  | EvMsg ci connected m draws o =>
-    match handle burst (w_agent w) (get_conn ci (w_conns w)) connected m draws with
+  | EvMsg ci connected seq m draws o =>
+    match handle_datagram burst (w_agent w) (get_conn ci (w_conns w)) connected (Dgram seq m) draws with
     | Crash _ => (None, o)
-    | Done (a', c', res) =>
+    | Done (a', c', res, rseq) =>
+      if negb (match rseq with Some x => x =? ob_rseq o | None => true end) then (None, Obs (ob_full o) false [] 0 0 [] [] [] 0 [] 0 [] false []) else
       let cs := if o_shutdown res then drop_conn ci (w_conns w) else put_conn ci c' (w_conns w) in
       (Some (World a' cs, res), o)
     end
@@ -149,9 +151,9 @@ Fixpoint first_bad (k : case) (w : world) (es : list event) (i : N) : option N :
     | (Some (w', res), o) =>
       let ok := match e with
                 | EvRestart _ => tables_agree (a_tables (w_agent w')) (ob_tables o) && store_agree (w_conns w') (ob_store o)
-                | EvTeardown _ _ => check w' (Out None (o_cmds res) [] true) (Obs true (ob_crash o) [] (ob_ncmds o) (ob_tables o) (ob_store o)
+                | EvTeardown _ _ => check w' (Out None (o_cmds res) [] true) (Obs true (ob_crash o) [] 0 (ob_ncmds o) (ob_tables o) (ob_store o)
                                              (ob_inv o) (ob_free o) (ob_teids o) (ob_gauge o) [] true (ob_pfds o))
-                | EvMsg _ _ _ _ _ => check w' res o
+                | EvMsg _ _ _ _ _ _ => check w' res o
                 end in
       if ok then first_bad k w' r (i + 1) else Some i
     end
